@@ -51,6 +51,70 @@ def ub_only_oracle(req, ans):
     return None
 
 
+def names_agree_oracle(req, ans):
+    """C08/C03 on the implementation alone: the four decoders of one wire name (owned heap / owned inline
+    / skipping / label iterator) agree — where the owned decoder succeeds the others succeed with the
+    same text, the same labels and the same end position; where it rejects the name for anything but
+    its length, the skipping decoder and the label walk reject it too"""
+    if ans == "bad-request":
+        return None
+    parts = {}
+    for p in ans.split(" | "):
+        k, _, v = p.partition("=")
+        parts[k] = v
+    for k, v in parts.items():
+        c = crash_oracle(req, v)
+        if c:
+            return "%s decoder: %s" % (k, c)
+    h, i, sk, it = parts.get("heap", ""), parts.get("inline", ""), parts.get("skip", ""), parts.get("iter", "")
+    if h.startswith("ok "):
+        t = h.split(" ")
+        text, nxt = t[1], t[2]
+        if i != h:
+            return "Name and InlineName decode the same wire name differently: %s vs %s" % (h[:80], i[:80])
+        if not sk.startswith("ok ") or sk.split(" ")[2] != nxt:
+            return "the owned decoder accepts the name (%s), the skipping decoder says %s" % (nxt, sk[:80])
+        if not it.startswith("ok"):
+            return "the owned decoder accepts the name, the label walk of the same name fails: %s" % it[:80]
+        labs = [x.split("@")[0] for x in it[3:].split(",") if x]
+        joined = "".join(l + "2e" for l in labs) or "2e"
+        if joined != text:
+            return "the labels walked (%s) are not the labels of the decoded name (%s)" % (joined[:80], text[:80])
+    elif h.startswith("err ") and not h.startswith("err DomainNameTooLong"):
+        if sk.startswith("ok "):
+            return "the owned decoder rejects the name (%s), the skipping decoder accepts it" % h[:60]
+        if it.startswith("ok"):
+            return "the owned decoder rejects the name (%s), the label walk accepts it" % h[:60]
+    return None
+
+
+def strip_hash_marks(ans):
+    """the recording hasher marks every `write` call of other than one byte with `fffe`; how the bytes
+    are grouped into calls is not part of the model (any grouping is fine as long as equal names use
+    the same one — `cmp_oracle`)"""
+    return re.sub(r"(ha|hb|iha)=((?:[0-9a-f]{2})*)", lambda m: m.group(1) + "=" + m.group(2).replace("fffe", ""), ans)
+
+
+def cmp_oracle(req, ans):
+    """C18 on the implementation alone: equal ⇔ compare Equal, both name types agree, and equal names
+    feed a hasher the same bytes through the same sequence of calls"""
+    c = crash_oracle(req, ans)
+    if c:
+        return c
+    if ans in ("partial-cmp-disagrees", "from-ref-disagrees"):
+        return ans
+    if not ans.startswith("eq="):
+        return None
+    f = dict(t.split("=", 1) for t in ans.split(" ") if "=" in t)
+    if (f["eq"] == "true") != (f["cmp"] == "eq") or (f["ieq"] == "true") != (f["icmp"] == "eq"):
+        return "equality and ordering disagree: %s" % ans[:80]
+    if f["eq"] != f["ieq"] or f["cmp"] != f["icmp"] or f["xeq"] != f["eq"]:
+        return "the two name types give different verdicts: %s" % ans[:80]
+    if f["eq"] == "true" and f["ha"] != f["hb"]:
+        return "equal names do not hash alike (bytes or call sequence fed to the hasher differ): %s vs %s" % (f["ha"][:60], f["hb"][:60])
+    return None
+
+
 def proj_ok_exact_err_any(req, ans):
     """successful results are fully determined by the specification; for rejections only the fact"""
     t = ans.split(" ")
@@ -90,6 +154,14 @@ STREAMS = {
         canon=ident, proj=proj_ok_exact_err_any, impl_oracle=crash_oracle,
         nontrivial=lambda req, ans: hexlen(req.split(" ")[3]) >= 2 and not ans.startswith("err EndOfBuffer"),
         outcome_key=lambda req, ans: req.split(" ")[1] + ":" + kind_of(ans),
+        shrink=shrink_hex_last,
+    ),
+    "names": dict(
+        kinds=["names"], quick=30000, thorough=1000000,
+        canon=ident, proj=lambda req, ans: " | ".join(proj_ok_exact_err_any(req, p.partition("=")[2]) for p in ans.split(" | ")),
+        impl_oracle=names_agree_oracle,
+        nontrivial=lambda req, ans: hexlen(req.split(" ")[2]) >= 2 and "heap=err EndOfBuffer" not in ans,
+        outcome_key=lambda req, ans: ",".join(kind_of(p.partition("=")[2]) for p in ans.split(" | ")),
         shrink=shrink_hex_last,
     ),
 }
@@ -195,6 +267,44 @@ def rrset_truth_oracle(req, ans):
                 return "expected %s, got %s" % (exp, got[:120])
         elif got != exp:
             return "record set differs from the CNAME-chain reference: expected %s, got %s" % (exp[:160], got[:160])
+    return None
+
+
+def cfg_expected(req):
+    """C13/C11 "as configured", without the model: every field holds the argument of the last call that
+    sets it; the wildcard bind address follows the family of the name server, an explicit one is kept;
+    a non-zero buffer size is at least 512"""
+    t = req.split(" ")
+    U4, U6 = "4-0-0", "6-0-0"
+    f = dict(ns=U4, bind=U4, lt="10000", qt="2000", st="0", rd="1", buf="65535", edns="0-1232")
+    if t[1].startswith("with:"):
+        f["ns"] = t[1][5:]
+        f["bind"] = U6 if f["ns"].startswith("6-") else U4
+    for op in t[2:]:
+        k, v = op.split(":", 1)
+        if k == "ns":
+            f["ns"] = v
+            if f["bind"] in (U4, U6):
+                f["bind"] = U6 if v.startswith("6-") else U4
+        elif k == "buf":
+            n = int(v)
+            f["buf"] = str(max(n, 512) if n > 0 else 0)
+        else:
+            f[k] = v
+    f["has"] = "0" if f["ns"] in (U4, U6) else "1"
+    return " ".join("%s=%s" % (k, f[k]) for k in ("ns", "bind", "lt", "qt", "st", "rd", "buf", "edns", "has"))
+
+
+def cfg_oracle(req, ans):
+    c = crash_oracle(req, ans)
+    if c:
+        return c
+    if ans == "bad-request":
+        return None
+    exp = cfg_expected(req)
+    if ans != exp:
+        bad = [a for a, b in zip(ans.split(" "), exp.split(" ")) if a != b]
+        return "the configuration built differs from what the calls say: got %s, expected %s" % (" ".join(bad), " ".join(b for a, b in zip(ans.split(" "), exp.split(" ")) if a != b))
     return None
 
 
@@ -728,9 +838,16 @@ STREAMS.update({
     ),
     "cmp": dict(
         kinds=["cmp", "eqstr"], quick=30000, thorough=800000,
-        canon=ident, proj=lambda req, ans: ans, impl_oracle=crash_oracle,
+        canon=strip_hash_marks, proj=lambda req, ans: strip_hash_marks(ans), impl_oracle=cmp_oracle,
         nontrivial=lambda req, ans: ans != "badname",
         outcome_key=lambda req, ans: req.split(" ")[0] + ":" + ans.split(" ")[0] + ":" + (ans.split(" ")[1] if " " in ans else ""),
+    ),
+    "cfg": dict(
+        kinds=["cfg"], quick=20000, thorough=400000,
+        canon=ident, proj=lambda req, ans: ans, impl_oracle=cfg_oracle,
+        nontrivial=lambda req, ans: len(req.split(" ")) >= 4,
+        outcome_key=lambda req, ans: "ctor=%s calls=%s st=%s" % (req.split(" ")[1].split(":")[0], min(len(req.split(" ")) - 2, 6),
+                                                           (re.search(r"st=(\d)", ans) or [None, "?"])[1]),
     ),
     "query": dict(
         kinds=["query"], quick=20000, thorough=500000,
@@ -1020,10 +1137,15 @@ PROPS = {
                    "against every query sent over loopback UDP/TCP and against the hook-level encoder with all buffer sizes.",
         level_note="The serializer is proved; the glue around it in the four clients (prepare_message, which bytes go to which "
                    "socket) is modelled in Model/Client.lean and tied to the code by the `c11` correspondence. Trusted: Lean kernel; "
-                   "loopback delivers what was sent; the scripted server's log.",
-        streams=[dict(name="query", impl_oracle=query_oracle), dict(name="c11", impl_oracle=client_c11_oracle)],
-        explanation="C11: query_bytes, writer_safe, refused_before_send, payload_clamp; streams `query` (hook, buffers of every size, guard pages) and "
-                    "`c11` (four real clients × UDP/TCP × EDNS/buffer combinations).",
+                   "loopback delivers what was sent; the scripted server's log. \"As configured\": for every sequence of "
+                   "ClientConfig builder calls the recursion flag, the EDNS setting and the buffer size are those of the last call "
+                   "that sets them (Props/C13Config.lean: rd_last_set, edns_last_set, buf_last_set; `cfg` stream on the real builder).",
+        modules=["Rsdns.Props.C11", "Rsdns.Props.C13Config"],
+        streams=[dict(name="query", impl_oracle=query_oracle), dict(name="c11", impl_oracle=client_c11_oracle),
+                 dict(name="cfg", quick=10000)],
+        explanation="C11: query_bytes, writer_safe, refused_before_send, payload_clamp; C13Config: rd_last_set, edns_last_set, "
+                    "buf_last_set; streams `query` (hook, buffers of every size, guard pages), `c11` (four real clients × UDP/TCP × "
+                    "EDNS/buffer combinations, eight builder orders) and `cfg`.",
     ),
     "C12": dict(
         level="proof", module="Rsdns.Props.C12",
@@ -1042,9 +1164,16 @@ PROPS = {
         level_text="Proved: with Tcp no datagram is sent; with NoTcp no connection is opened and a truncated answer is returned as is; "
                    "with Udp a TC answer leads to exactly one TCP exchange whose result is returned. udp_first/tcp_allowed are "
                    "translated from clients/std/client_impl.rs and templates/async_client_impl.rs on every run.",
-        level_note="Trusted: Lean kernel; tools/extract.py; the scripted server's trace (datagrams seen, connections accepted).",
-        streams=[dict(name="c13", impl_oracle=client_c13_oracle)],
-        explanation="C13: strategy_table, tcp_only_sends_no_datagram, notcp_never_connects, udp_fallback.",
+        level_note="Trusted: Lean kernel; tools/extract.py; the scripted server's trace (datagrams seen, connections accepted). "
+                   "\"The strategy\" is the one the configuration carries: Props/C13Config.lean proves, for every sequence of "
+                   "ClientConfig builder calls (two constructors, eight setters; model Rsdns/Model/Config.lean, validated by the `cfg` "
+                   "stream against the real builder), that each field holds the argument of the last call that sets it — a change of "
+                   "name server, to either address family, touches nothing but the name server and a wildcard bind address — and "
+                   "lifts tcp_only_sends_no_datagram / notcp_never_connects to the configuration built.",
+        modules=["Rsdns.Props.C13", "Rsdns.Props.C13Config"],
+        streams=[dict(name="c13", impl_oracle=client_c13_oracle), dict(name="cfg")],
+        explanation="C13: strategy_table, tcp_only_sends_no_datagram, notcp_never_connects, udp_fallback; C13Config: strat_last_set, "
+                    "setNs_frame, setNs_bind, built_notcp_never_connects, built_tcp_only; streams `c13` (eight builder orders) and `cfg`.",
     ),
     "C14": dict(
         level="proof", module="Rsdns.Props.C14",
@@ -1130,7 +1259,7 @@ PROPS = {
                    "type is UnexpectedType) — by a simulation (record_sim, drain_sim, questions_sim; Lemmas/Views.lean). Markers vs "
                    "borrowed vs owned headers and skip vs raw vs typed data positions: C09.pair_follows_pass; typed random access: "
                    "C10.at_closed_form. Comparison involving MessageReader views is limited to ≤ 65535 bytes (MessageReader::new refuses more).",
-        streams=[dict(name="views"), dict(name="nameeq", impl_oracle=nameeq_oracle)],
+        streams=[dict(name="views"), dict(name="nameeq", impl_oracle=nameeq_oracle), dict(name="names", quick=20000)],
         explanation="C08: iter_agrees_with_pass, data_eq_dataAt, dataBytes_eq_dataBytesAt (Props/C08Views.lean), nameref_eq_decoded, nameRefEqLoop_spec, eqLabels_iff_nameEq, read_kinds_agree, skip_of_read, walk_congr_mode; streams `views` and `nameeq`.",
     ),
     "C10": dict(
@@ -1169,7 +1298,7 @@ PROPS = {
                    "The model is tied to /repo by generated constants/masks and by the `name` correspondence stream.",
         level_note="Trusted: Lean kernel; axioms ⊆ {propext, Classical.choice, Quot.sound}; the hand-written model of "
                    "labels.rs/labels/macros.rs/cursor.rs (validated by correspondence on every run); tools/extract.py; harness.",
-        streams=[dict(name="name")],
+        streams=[dict(name="name"), dict(name="names", quick=15000)],
         explanation="Theorems: soundness of read/skip/iterate against the RFC 1035 §4.1.4 expansion relation incl. resume "
                     "position, the four rejection theorems, and completeness for backward-only (conforming) layouts; "
                     "correspondence: stream `name` through all four instantiations of labels_loop!.",
